@@ -29,6 +29,9 @@ def demo():
 meta = json.load(open(f"{src}/meta.json"))
 rust = meta.get("language") == "rust"
 sh(f"git -C {wt} checkout -- .")
+head = sh("git -C /repo rev-parse HEAD").stdout.strip()
+sh(f"git -C {wt} checkout -q --detach {head}")   # evaluate against the current tree
+sh(f"cp /repo/src/sedpack/_sedpack_rs*.so {wt}/src/sedpack/")
 r = sh(f"git -C {wt} apply {src}/patch.diff")
 assert r.returncode == 0, r.stderr
 if rust:
@@ -58,6 +61,7 @@ shutil.copy(f"{src}/patch.diff", dst)
 shutil.copy(f"{src}/demo.py", dst)
 meta["confirmed_by_me"] = conf
 meta["checks_run"] = {c: {"caught": results[c]["rc"] == 1, **results[c]} for c in checks}
+meta["repo_head"] = head
 meta["how_run"] = "patch applied in scratch worktree; ./check <ID> with VERIF_REPO=<worktree> (quick tier, VERIF_SEED default)"
 json.dump(meta, open(f"{dst}/meta.json", "w"), indent=1)
 print(pid, n, json.dumps(conf), {c: (results[c]["rc"], results[c]["lines"][:2], results[c]["wall_s"]) for c in checks})
